@@ -692,7 +692,8 @@ class GenericOp(IRDLOperation):
 
         if "bounds" in attrs:
             bounds = attrs["bounds"]
-            assert isa(bounds, ArrayAttr[IntegerAttr[IntegerType | IndexType]]), bounds
+            if not isa(bounds, ArrayAttr[IntegerAttr[IntegerType | IndexType]]):
+                parser.raise_error("expected an array of integers for `bounds`")
             index = IndexType()
             bounds = ArrayAttr(
                 tuple(IntegerAttr(attr.value, index) for attr in bounds.data)
